@@ -6,6 +6,8 @@ kind in every ordering, start offsets, varying steps, shuffled listing order) ru
 final times, outcome class.  Oracle: no pull at the announced time inside an update fails with a
 time-range/no-data error, and no request that reaches a range check lies beyond the newest
 publication (no extrapolation)."""
+import re
+
 from . import sched_common as sc
 from .. import common
 from ..schedlib import CACHE, layout, model_request, run_impl
@@ -39,8 +41,13 @@ def classify(spec, impl):
             if any(a[0] == "dpull" for a in l["ads"]) and spec["comps"][l["dst"]]["kind"] == "pull" \
                     and sum(1 for m in spec["links"] if m["src"] == l["dst"]) > 1:
                 return SIG_F19
-    if impl["error"] == "FinamTimeError" and ("out of range" in msg or "in the past" in msg):
-        # a pull-based component whose outputs feed more than one consumer path
+    below = "in the past" in msg
+    m = re.search(r"Requested time (\S+ \S+) out of range \[(\S+ \S+), (\S+ \S+)\]", msg)
+    if m:
+        below = m.group(1) < m.group(2)   # ISO time stamps compare lexicographically: asked for something already evicted
+    if impl["error"] == "FinamTimeError" and below:
+        # a pull-based component whose outputs feed more than one consumer path: history needed by the slower path was
+        # evicted (requests *beyond* the newest publication are never this finding)
         for i, c in enumerate(spec["comps"]):
             if c["kind"] == "pull" and sum(1 for l in spec["links"] if l["src"] == i) > 1:
                 return SIG_F16
@@ -58,7 +65,7 @@ def oracle(spec, impl):
 
 def gen(ctx):
     r = ctx.rng.random()
-    if r < 0.12:
+    if r < 0.2:
         from . import c20
         return c20.gen_pull(ctx.rng)   # producers -> pull-based component(s) -> consumer, two outputs, diamonds, delayed paths
     if r < 0.5:
